@@ -6,7 +6,9 @@ ids = [json.loads(l)["id"] for l in open(os.path.join(V, "properties.jsonl"))]
 props = {}
 for f in glob.glob(os.path.join(V, "props", "C*.json")):
     d = json.load(open(f))
-    props[d["id"]] = d
+    # a property is claimed only once the lead has seen its check pass on /repo
+    if d.get("ready"):
+        props[d["id"]] = d
 na = {}
 nap = os.path.join(V, "props", "not_applicable.json")
 if os.path.exists(nap):
